@@ -254,7 +254,9 @@ static int vg_safe_out(FILE *stream, const char *fmt, unsigned nargs, vg_arg_t a
 /* Header strings: "bounded strings" - at most VG_S bytes, EVERY byte value (a 0 byte simply ends the
    string earlier).  The sinks check per byte and the only unbounded sanitiser, safe_output, is proved
    inductively, so nothing depends on the length except the unwinding. */
+#ifndef VG_S
 #define VG_S 8
+#endif
 LHAFileHeader vg_hdr;
 char vg_path[VG_S + 1], vg_filename[VG_S + 1], vg_target[VG_S + 1], vg_user[VG_S + 1], vg_group[VG_S + 1];
 uint8_t vg_raw[4];
